@@ -5,6 +5,8 @@ import (
 	"math/bits"
 	"runtime"
 	"runtime/debug"
+
+	"grol.io/grol/simhook"
 )
 
 // Size of the Object interface in bytes.
@@ -12,6 +14,9 @@ const ObjectSize = 2 * bits.UintSize / 8 // also unsafe.Sizeof(interface) == 16 
 
 // Returns the amount of free memory in bytes.
 func FreeMemory() int64 {
+	if f, ok := simhook.FreeMemory(); ok {
+		return f
+	}
 	var memStats runtime.MemStats
 	runtime.ReadMemStats(&memStats)
 	currentAlloc := memStats.HeapAlloc
